@@ -34,6 +34,15 @@ Definition iCol (md : string) (bykey : bool) (its : list item) (h : list ev) : c
 (* large key set: style, number of keys, value hash (i*a+b) mod m, row limit, number of arrival orders *)
 Definition iTop (md : string) (style n a b m limit reps : Z) : cin :=
   ITop (unhex md) (big_items (Z.to_nat style) (Z.to_nat n) a b m) (Z.to_nat limit) (Z.to_nat reps).
+(* table history: tS col row inc | tR | tK n (keep last n columns) | tV lo hi | tC [cols] *)
+Definition tS (c r inc : Z) : tev := TSample (Z.to_nat c) (Z.to_nat r) inc.
+Definition tR : tev := TRead.
+Definition tK (n : Z) : tev := TTrimKeep (Z.to_nat n).
+Definition tV (lo hi : Z) : tev := TTrimVal lo hi.
+Definition tC (l : list Z) : tev := TTrimCols (nats l).
+Definition iTab (md mdc : string) (byrows : bool) (rits cits : list item) (h : list tev) : cin :=
+  ITable (unhex md) (unhex mdc) byrows (map fst rits) (map fst cits) h.
+Definition oTab (present order : list Z) : cout := OTable (nats present) (nats order).
 Definition oErr : cout := OErr.
 Definition oPanic : cout := OPanic.
 Definition oAx (m : list (list bool)) : cout := OAx m.
